@@ -38,7 +38,7 @@ def gen(rng):
                                    lock=rng.choice(["absent", "absent", "ahead"]),
                                    special_ids=rng.choice([None, [0], [0]]), unicode_p=rng.choice([0, 0.2]),
                                    many=rng.choice([255, 256, 256, 257, 512, 1000]) if rng.random() < 0.04 else None,
-                                   many_files=rng.choice([255, 256, 257]) if rng.random() < 0.01 else None)
+                                   many_files=rng.choice([255, 256, 257]) if rng.random() < 0.01 else None, big_p=0.01)
         for p, segs in wm["files"].items():
             for s in segs:
                 if s[0] == "stmt" and rng.random() < 0.6 and s[2].startswith("    "):
